@@ -173,7 +173,11 @@ def _validate(W, routine, N, n, r):
         idx = [int(i) for i in getattr(order, routine)(V)]
         bad = _exact_check(W, [[Fraction(float(x)) for x in row] for row in V], idx, routine)
         if bad:
-            r["inconclusive"].append(f"concrete validation: {routine} on {V.tolist()} -> {idx} violates {bad}")
+            r["violations"].append({"obligation": "concrete validation: " + ",".join(bad), "reproduced": True,
+                                    "case": {"cone": "validation", "W": np.asarray(W).tolist(), "routine": routine,
+                                             "V": frac_json([[Fraction(float(x)) for x in row] for row in V])},
+                                    "replay_detail": f"{routine} -> {idx} violates {bad}",
+                                    "features": {"routine": routine, "source": "concrete_validation"}})
         else:
             ok += 1
     return ok
